@@ -61,6 +61,10 @@ class Folder:
                 return a & b
             if t[1] == "|":
                 return a | b
+        if k == "mut" and t[2] in ("append", "extend") and len(t[3]) == 1 and not t[4]:
+            base = self.ev(t[1])  # x.append(v) / x.extend(y) build the same list as x + [v] / x + list(y)
+            if isinstance(base, list):
+                return base + ([self.ev(t[3][0])] if t[2] == "append" else list(self.ev(t[3][0])))
         if k == "cmp":
             a, b = self.ev(t[2]), self.ev(t[3])
             return {"in": lambda: a in b, "not in": lambda: a not in b, "==": lambda: a == b, "!=": lambda: a != b,
@@ -112,7 +116,7 @@ class Folder:
                     key = dict(t[3]).get("key")
                     if key is None:
                         return sorted(arg)
-                    if key[0] == "lambda":
+                    if key[0] in ("lambda", "closure"):
                         kf = lambda x: self._apply(key, x)  # noqa: E731
                         return sorted(arg, key=kf)
                     raise AnalysisError("sorted key not a lambda")
@@ -150,6 +154,9 @@ class Folder:
         raise AnalysisError(f"not constant-foldable: {ir.show(t, maxdepth=3)}")
 
     def _apply(self, lam, x):
+        if lam[0] == "closure":
+            fi, env, _ = self.b.closures[lam[1]]
+            return _Interp(self, env).call(fi.node, [x])
         body = self.b.lambda_apply(lam, [("const", x)])
         return self.ev(body)
 
@@ -182,3 +189,152 @@ class Folder:
         if kind == "set":
             return set(out)
         return out
+
+
+class _Return(Exception):
+    def __init__(self, value):
+        self.value = value
+
+
+class _Interp:
+    """Partial evaluation of a PURE nested function on constant arguments (a sort key written as a def instead of a lambda): straight-line
+    code, if / for / return over constants, comparisons, string tests, len / enumerate / range / min / max. Free names are folded from the
+    defining scope's terms. Anything else is 'not foldable'."""
+    _BUILTINS = {"len": len, "enumerate": enumerate, "range": range, "min": min, "max": max, "any": any, "all": all, "list": list, "tuple": tuple,
+                 "sorted": sorted, "str": str, "int": int, "abs": abs, "zip": zip, "next": next, "bool": bool, "reversed": reversed}
+    _METHODS = {"startswith", "endswith", "index", "split", "lower", "upper", "strip", "count", "find", "get", "keys", "values", "items", "join"}
+
+    def __init__(self, folder, env_terms):
+        self.f = folder
+        self.env_terms = env_terms
+        self.steps = 0
+
+    def call(self, node, args):
+        import ast
+        a = node.args
+        if a.vararg or a.kwarg or a.kwonlyargs or len(a.args) != len(args):
+            raise AnalysisError("key function signature not foldable")
+        env = {p.arg: v for p, v in zip(a.args, args)}
+        try:
+            self.block(node.body, env)
+        except _Return as r:
+            return r.value
+        return None
+
+    def block(self, stmts, env):
+        import ast
+        for st in stmts:
+            self.steps += 1
+            if self.steps > 20000:
+                raise AnalysisError("key function: too many steps")
+            if isinstance(st, ast.Return):
+                raise _Return(self.ev(st.value, env) if st.value is not None else None)
+            elif isinstance(st, ast.Expr) and isinstance(st.value, ast.Constant):
+                continue
+            elif isinstance(st, ast.Assign) and len(st.targets) == 1:
+                self.bind(st.targets[0], self.ev(st.value, env), env)
+            elif isinstance(st, ast.If):
+                self.block(st.body if self.ev(st.test, env) else st.orelse, env)
+            elif isinstance(st, ast.For) and not st.orelse:
+                for x in self.ev(st.iter, env):
+                    self.bind(st.target, x, env)
+                    self.block(st.body, env)
+            elif isinstance(st, ast.Pass):
+                continue
+            else:
+                raise AnalysisError(f"key function statement not foldable: {type(st).__name__}")
+
+    def bind(self, tgt, v, env):
+        import ast
+        if isinstance(tgt, ast.Name):
+            env[tgt.id] = v
+        elif isinstance(tgt, (ast.Tuple, ast.List)):
+            v = list(v)
+            if len(v) != len(tgt.elts):
+                raise AnalysisError("unpacking")
+            for t_, x in zip(tgt.elts, v):
+                self.bind(t_, x, env)
+        else:
+            raise AnalysisError("key function stores to a non-local")
+
+    def ev(self, e, env):
+        import ast
+        import operator as op
+        if isinstance(e, ast.Constant):
+            return e.value
+        if isinstance(e, ast.Name):
+            if e.id in env:
+                return env[e.id]
+            if e.id in self.env_terms:
+                return self.f.ev(self.env_terms[e.id])
+            if e.id in ("True", "False", "None"):
+                return {"True": True, "False": False, "None": None}[e.id]
+            raise AnalysisError(f"key function reads {e.id}: not a constant")
+        if isinstance(e, (ast.List, ast.Tuple)):
+            v = [self.ev(x, env) for x in e.elts]
+            return v if isinstance(e, ast.List) else tuple(v)
+        if isinstance(e, ast.Compare):
+            left = self.ev(e.left, env)
+            ops = {ast.Eq: op.eq, ast.NotEq: op.ne, ast.Lt: op.lt, ast.LtE: op.le, ast.Gt: op.gt, ast.GtE: op.ge, ast.Is: op.is_, ast.IsNot: op.is_not,
+                   ast.In: lambda a, b: a in b, ast.NotIn: lambda a, b: a not in b}
+            for o, r in zip(e.ops, e.comparators):
+                right = self.ev(r, env)
+                if not ops[type(o)](left, right):
+                    return False
+                left = right
+            return True
+        if isinstance(e, ast.BoolOp):
+            v = None
+            for x in e.values:
+                v = self.ev(x, env)
+                if isinstance(e.op, ast.And) and not v:
+                    return v
+                if isinstance(e.op, ast.Or) and v:
+                    return v
+            return v
+        if isinstance(e, ast.UnaryOp):
+            v = self.ev(e.operand, env)
+            return {ast.Not: lambda x: not x, ast.USub: lambda x: -x, ast.UAdd: lambda x: +x, ast.Invert: lambda x: ~x}[type(e.op)](v)
+        if isinstance(e, ast.BinOp):
+            ops = {ast.Add: op.add, ast.Sub: op.sub, ast.Mult: op.mul, ast.FloorDiv: op.floordiv, ast.Mod: op.mod}
+            if type(e.op) not in ops:
+                raise AnalysisError("key function operator not foldable")
+            return ops[type(e.op)](self.ev(e.left, env), self.ev(e.right, env))
+        if isinstance(e, ast.IfExp):
+            return self.ev(e.body if self.ev(e.test, env) else e.orelse, env)
+        if isinstance(e, ast.Subscript):
+            v = self.ev(e.value, env)
+            if isinstance(e.slice, ast.Slice):
+                lo, hi, st = (self.ev(x, env) if x is not None else None for x in (e.slice.lower, e.slice.upper, e.slice.step))
+                return v[slice(lo, hi, st)]
+            return v[self.ev(e.slice, env)]
+        if isinstance(e, ast.JoinedStr):
+            out = ""
+            for p_ in e.values:
+                if isinstance(p_, ast.Constant):
+                    out += p_.value
+                elif isinstance(p_, ast.FormattedValue) and p_.conversion == -1 and p_.format_spec is None:
+                    out += str(self.ev(p_.value, env))
+                else:
+                    raise AnalysisError("key function f-string not foldable")
+            return out
+        if isinstance(e, (ast.GeneratorExp, ast.ListComp)) and len(e.generators) == 1:
+            g = e.generators[0]
+            out = []
+            for x in self.ev(g.iter, env):
+                e2 = dict(env)
+                self.bind(g.target, x, e2)
+                if all(self.ev(c, e2) for c in g.ifs):
+                    out.append(self.ev(e.elt, e2))
+            return out
+        if isinstance(e, ast.Call) and not any(k.arg is None for k in e.keywords):
+            args = [self.ev(a, env) for a in e.args]
+            kws = {k.arg: self.ev(k.value, env) for k in e.keywords}
+            if isinstance(e.func, ast.Name) and e.func.id in self._BUILTINS and e.func.id not in env:
+                r = self._BUILTINS[e.func.id](*args, **kws)
+                return list(r) if e.func.id in ("enumerate", "zip", "reversed", "range") else r
+            if isinstance(e.func, ast.Attribute) and e.func.attr in self._METHODS:
+                recv = self.ev(e.func.value, env)
+                if isinstance(recv, (str, list, tuple, dict)):
+                    return getattr(recv, e.func.attr)(*args, **kws)
+        raise AnalysisError(f"key function expression not foldable: {type(e).__name__}")
